@@ -14,7 +14,7 @@ def _st(op, name, desc, tiers=('thorough',), **defs):
     d = {'OP': op, 'BS_CAP': 12, 'FCAP': FCAP, 'NFILES': 7, 'NSTREAMS': 4}
     d.update(defs)
     return Ob('store_' + name, 'C15/store.cpp', STORE_REAL, defines=d, unwind=18, caps='C15/caps.h',
-              unwind_rules=[(r'vio_freeze|vio_dir_recover|vio_dir_reset', FCAP + 2), (r'^harness|file_is|ref_object', FCAP + 2), (r'vio_dir_streq|vio_dir_readdir', 18)],
+              unwind_rules=[(r'vio_freeze|vio_dir_recover|vio_dir_reset', 7 * FCAP + 16), (r'^harness|file_is|ref_object', 7 * FCAP + 16), (r'vio_dir_streq|vio_dir_readdir', 18)],
               flags=['--max-field-sensitivity-array-size', '128'],   # the model files stay field-sensitive: concrete file bytes propagate
               desc=desc, bounds=STORE_BOUNDS, timeout=900, mem=16, tiers=tiers)
 
@@ -25,6 +25,10 @@ def register(reg):
         _st(2, 's2_create_create', 'Q has indexed; P.createObject() (+ attributes); Q\'s next store call is Q.createObject() itself (no index in between); Q.getObjects() must contain BOTH objects with their values, so must P.getObjects()', tiers=('quick', 'thorough')),
         _st(3, 's3_delete_seen', 'P and Q have object a loaded; P.deleteObject(a): Q\'s pointer reports isValid()==false at its next access and serves no attribute, Q.getObjects() and P.getObjects() no longer return it, the file is gone, a fresh instance does not find it and it never reappears for Q', tiers=('quick', 'thorough')),
         _st(4, 's4_setattr_seen', 'P changes the label of an object Q has loaded: Q sees the new value (and the unchanged other attribute) at its next access; a later write of Q does not lose P\'s committed change', tiers=('quick', 'thorough')),
+    ]
+    c15 += [
+        _st(11, 's5_replace_seen', 'P destroys object a and creates object b with no call of Q in between (the number of object files is unchanged, the set is not): Q\'s next search returns exactly b with its values, Q\'s pointer to a is invalid', tiers=('quick', 'thorough')),
+        _st(12, 's6_owndelete_create', 'Q destroys its own object a, then P creates b: Q\'s next search returns exactly b (two cooperating sites: deleteObject keeps the name in currentFiles)', tiers=('quick', 'thorough')),
     ]
     # ---- C16: crash points.  File-system operations of OSToken::createObject() on the pinned tree (measured natively, asserted by every instance):
     #  0 open(b.object,O_CREAT) 1 fdopen 2 fcntl(lock) 3 open(b.lock,O_CREAT|O_TRUNC) 4 fdopen 5 fread(generation: EOF) 6 fseek 7 ftruncate
@@ -38,7 +42,7 @@ def register(reg):
     c16 = [crash_create(at, 0 if at < 9 else 8) for at in range(CREATE_NOPS) if at != 9] + [crash_create(9, p) for p in range(9)]
     c16 += [_st(6, 'crash_delete_at_%d' % at, 'crash at file-system operation %d of OSToken::deleteObject(b): a fresh instance opens the token, the token object and the other object are intact, the object being deleted is gone or intact with its values' % at, VIO_AT=at, NOPS=DELETE_NOPS) for at in range(DELETE_NOPS)]
     for o in c16:
-        if o.name in ('store_crash_create_at_0', 'store_crash_create_at_13', 'store_crash_delete_at_2'): o.tiers = ('quick', 'thorough')
+        if o.name in ('store_crash_create_at_13', 'store_crash_delete_at_2'): o.tiers = ('quick', 'thorough')
     # ---- C05: restart and failing operations
     c05 = [
         _st(7, 'restart_create', 'createObject + 2 x setAttribute returned true: the bytes on the disk are the documented layout (format pin), nothing is left open or unflushed, a FRESH OSToken instance (restart) finds exactly this object with identical values', tiers=('quick', 'thorough')),
@@ -46,6 +50,14 @@ def register(reg):
     ]
     c05 += [_st(9, 'fault_create_at_%d' % at, 'file-system operation %d of OSToken::createObject() fails: a non-NULL result only for an object whose file is on the disk and that a restart finds valid; the other object is untouched' % at, VIO_AT=at, NOPS=CREATE_NOPS) for at in range(CREATE_NOPS)]
     c05 += [_st(10, 'fault_delete_at_%d' % at, 'file-system operation %d of OSToken::deleteObject(b) fails: true only when the object file is gone from the disk and a restart does not find it; the other object is untouched' % at, VIO_AT=at, NOPS=DELETE_NOPS) for at in range(DELETE_NOPS)]
+    # ---- variants of the quantifier "order": reverse readdir order, reverse iteration order of std::set<OSObject*>
+    c15 += [_st(op, n + '_rev', d + ' [readdir in reverse table order, std::set<OSObject*> iterated in reverse creation order]', VIO_DIR_ORDER=1, PTR_ORDER=1)
+            for (op, n, d) in ((1, 's1_create_seen', c15[0].desc), (2, 's2_create_create', c15[1].desc), (3, 's3_delete_seen', c15[2].desc), (4, 's4_setattr_seen', c15[3].desc))]
+    # ---- C09 (its quantifier includes failing file-system operations): a failed createObject leaves no object behind; a failed deleteObject
+    # that left the file in place has not killed the object for the caller.  Both were defects of the pinned tree (repaired, see known-findings.txt).
+    strict = [_st(9, 'strict_fault_create_at_%d' % at, 'file-system operation %d of OSToken::createObject() fails and createObject returns NULL: nothing is left in the token directory, a restart finds no new object' % at, tiers=('quick', 'thorough') if at in (1, 7, 9) else ('thorough',), VIO_AT=at, NOPS=CREATE_NOPS, STRICT=1) for at in range(CREATE_NOPS)]
+    strict += [_st(10, 'strict_fault_delete_at_%d' % at, 'file-system operation %d of OSToken::deleteObject(b) fails, the object file is still there: the object is still valid, with its values, for the calling process' % at, tiers=('quick', 'thorough') if at == 0 else ('thorough',), VIO_AT=at, NOPS=DELETE_NOPS, STRICT=1) for at in range(DELETE_NOPS)]
+    reg.OBLIGATIONS['C09'] = reg.OBLIGATIONS['C09'] + strict
     for k in ('C15', 'C16', 'C05'):
         reg.OBLIGATIONS.setdefault(k, [])
     reg.OBLIGATIONS['C15'] = reg.OBLIGATIONS['C15'] + c15
